@@ -104,14 +104,25 @@ class Ctx:
         key = (race, tuple(tags))
         if key in self._harness:
             return self._harness[key]
-        shutil.copy(os.path.join(REPO, 'go.sum'), os.path.join(HARNESS, 'go.sum'))
+        # VERIF_REPO=<dir> builds against another checkout of dgrr/http2 (a scratch worktree with a
+        # candidate fix or a seeded mutation) instead of /repo: the harness is copied and its
+        # `replace` line rewritten, /verif/harness itself is left alone.
+        hdir = HARNESS
+        repo = os.environ.get('VERIF_REPO', REPO)
+        if repo != REPO:
+            hdir = os.path.join(self.scratch, 'harness-src')
+            if not os.path.exists(hdir):
+                shutil.copytree(HARNESS, hdir)
+                gm = open(os.path.join(hdir, 'go.mod')).read().replace('=> /repo', '=> ' + repo)
+                open(os.path.join(hdir, 'go.mod'), 'w').write(gm)
+        shutil.copy(os.path.join(repo, 'go.sum'), os.path.join(hdir, 'go.sum'))
         out = os.path.join(self.scratch, 'h2v' + ('-race' if race else ''))
         cmd = [go_bin(), 'build', '-tags', ','.join(tags), '-o', out]
         env = go_env()
         if race:
             cmd.insert(2, '-race'); env['CGO_ENABLED'] = '1'
         cmd.append('.')
-        p = subprocess.run(cmd, cwd=HARNESS, env=env, stdout=subprocess.PIPE, stderr=subprocess.STDOUT, text=True)
+        p = subprocess.run(cmd, cwd=hdir, env=env, stdout=subprocess.PIPE, stderr=subprocess.STDOUT, text=True)
         if p.returncode != 0:
             raise Inconclusive('harness build failed:\n' + p.stdout[-3000:])
         self._harness[key] = out
@@ -194,6 +205,21 @@ class Ctx:
     def known(self, what):
         self.known_hits.append(what)
         print('KNOWN-FINDING: property=%s %s' % (self.prop, what), flush=True)
+
+    def report(self, cls, what, finding):
+        """A rejected real-code trace/line.  `cls` is the defect signature the TRACE SPEC computed for it
+        ("none" when it matches no listed signature).  Listed in known_findings.json (status finding) =>
+        KNOWN-FINDING (printed once per class), anything else => VIOLATION."""
+        if not hasattr(self, '_known'):
+            self._known = {k['class']: k for k in load_known(self.prop)}
+            self._known_seen = {}
+        if cls in self._known:
+            self._known_seen[cls] = self._known_seen.get(cls, 0) + 1
+            if self._known_seen[cls] == 1:
+                self.known('%s: %s' % (cls, self._known[cls].get('what', '')))
+            return False
+        self.violation(what, finding)
+        return True
 
     def sample(self, obj):
         if len(self.samples) < 4:
